@@ -281,6 +281,8 @@ class GroupBy:
         # Exits as soon as it detects non-monotonicity and uses empty arrays to avoid wasted memory
         cutoff, mono_codes, mono_uniques = monotonic_factorization(group_key)
         mono_codes = mono_codes[:cutoff]
+        if _verif.ACTIVE:
+            _verif.emit("Route", kind="chunked", cutoff=int(cutoff), n=len(group_key))
         if cutoff == len(group_key):
             # group_key is fully monotonic
             self._group_ikey, self._result_index = mono_codes, pd.Index(mono_uniques)
@@ -561,6 +563,12 @@ class GroupBy:
         if not self.key_is_chunked:
             return
 
+        if _verif.ACTIVE:
+            _verif.emit(
+                "Unify",
+                keep_chunked=bool(keep_chunked),
+                had_pointers=self._group_key_pointers is not None,
+            )
         if self._group_key_pointers is not None:
             chunks = [
                 p[k] for p, k in zip(self._group_key_pointers, self._group_ikey.chunks)
